@@ -97,12 +97,27 @@ NormMoment(s, k) == LET tot == Mom(s.psd, s.bounds, k)
                     IN  IF tot = RZero THEN [s EXCEPT !.err = "ZeroDivision"]
                         ELSE [s EXCEPT !.psd = [i \in 1..s.bins |-> RDiv(s.psd[i], tot)]]
 
+(* canned distributions handed to UpdatePBMEuler by the drivers (shared by the exploration and the evaluator) *)
+Pattern(k, p) ==
+    CASE p = 0 -> Seq0(k)
+      [] p = 1 -> [i \in 1..k |-> RI(5)]
+      [] p = 2 -> [i \in 1..k |-> IF i = 1 THEN RI(2) ELSE RZero]
+      [] p = 3 -> [i \in 1..k |-> IF i = (k + 1) \div 2 THEN RI(5) ELSE IF i = k THEN R(1, 2) ELSE RZero]
+      [] p = 4 -> [i \in 1..k |-> RI(i)]
+      [] p = 5 -> [i \in 1..k |-> IF 4 * i <= k + 3 THEN RI(3) ELSE RZero]
+      [] p = 6 -> [i \in 1..k |-> IF i = k THEN RI(7) ELSE RZero]
+
+
+TestN(k) == [i \in 1..k |-> RI(3 * (i - 1) + 1)]
+TestW(k) == [i \in 1..k |-> R(((i - 1) % 3) + 1, 2)]
+
 Do(s, op) ==
     CASE op.op = "reset"   -> Reset(s, op.rb)
       [] op.op = "add"     -> AddClasses(s, op.k)
       [] op.op = "change"  -> ChangeClasses(s, op.a, op.b, op.n, op.reset)
       [] op.op = "adjust"  -> Adjust(s, op.chk)
       [] op.op = "update"  -> Update(s, op.v)
+      [] op.op = "updatep" -> Update(s, Pattern(s.bins, op.p))
       [] op.op = "backup"  -> Backup(s)
       [] op.op = "revert"  -> Revert(s)
       [] op.op = "load"    -> Load(s, op.data)
